@@ -176,6 +176,20 @@ Section Scripts.
     intros H; inversion H; subst. apply ext_refl, nb_nil.
   Qed.
 
+  Lemma ext_heal_hp R (GR : good_runner R) s id src amt s' : heal_hp cfg R s id src amt = Some s' -> ext nb s s'.
+  Proof.
+    unfold heal_hp. destruct (get_unit (units s) id); [apply ext_hp_change; exact GR|].
+    intros H; inversion H; subst. apply ext_refl, nb_nil.
+  Qed.
+  Lemma ext_do_heals R (GR : good_runner R) : forall ts s self amt s',
+    do_heals cfg R s self amt ts = Some s' -> ext nb s s'.
+  Proof.
+    induction ts as [|t ts IH]; intros s self amt s' H; cbn [do_heals] in H.
+    - inversion H; subst. apply ext_refl, nb_nil.
+    - destruct (heal_hp cfg R s t self amt) as [s1|] eqn:E1; [|discriminate].
+      eapply ext_trans_nb; [eapply ext_heal_hp; eassumption|]. eapply IH. exact H.
+  Qed.
+
   Lemma ext_hit s s2 a d t h : ext nb (emit s [VHitStart a d]) s2 -> ext nb s (emit s2 [VHitEnd a d t h]).
   Proof.
     intros (seg & T & P & I & Fl). cbn in T, I, Fl.
@@ -231,6 +245,9 @@ Section Scripts.
       rewrite ET in Hf. exact Hf.
     - destruct (get_unit (units s) _); inversion H; subst; [apply ext_upd_unit|apply ext_refl, nb_nil].
     - inversion H; subst. apply ext_emit_neutral. reflexivity.
+    - (* SHeal *)
+      match type of H with (if ?c then _ else _) = _ => destruct c end; [inversion H; subst; apply ext_refl, nb_nil|].
+      eapply ext_do_heals; eassumption.
   Qed.
 
   Lemma exec_list_listener R (GR : good_runner R) : forall ops s self p s',
